@@ -816,6 +816,28 @@ def gen_c19(tier, seed):
             d["ic"] = sorted(rng.sample([0, 1, 2, 3], rng.randrange(1, 3)))
         d["gcost"] = rng.choice([0, 3, 10 * q])
         out.append(line(d))
+    # costs that jump: a cliff exactly where a tuning round begins (a cache or capacity boundary), one huge call (a page fault), costs
+    # that grow geometrically. The round that first outlasts 100x precision is the first recorded one however much longer than its
+    # predecessor it is
+    for k in range(40 if tier == "quick" else 1200):
+        kind = k % 3
+        r = rng.choice([1, 2, 3, 4, 5])
+        K = 2 ** r - 1                       # calls made before tuning round r begins
+        c0 = rng.choice([1, 1, 2, 3])
+        if kind == 0:
+            c1 = rng.choice([30, 40, 120, 1000]) * c0
+            clist = [c0] * K + [c1] * (255 - K)
+        elif kind == 1:
+            clist = [c0] * 255
+            clist[K + rng.randrange(0, 2 ** r)] = rng.choice([150, 500, 5000]) * (2 ** r)
+        else:
+            g = rng.choice([3, 4, 6])
+            clist = [min(c0 * g ** i, 10 ** 9) for i in range(24)]
+        d = {"id": N + 100 + k, "entry": rng.choice([0, 0, 1, 2, 4]), "T": rng.choice([1, 1, 2]), "n": rng.choice([2, 3, 5]), "q": 1, "delta": 1,
+             "freq": rng.choice([10 ** 9, 10 ** 12]), "clist": ",".join(map(str, clist)), "seed": rng.randrange(1 << 20), "fplog": 0, "oshape": "z"}
+        if d["entry"] >= 2:
+            d["ishape"] = "s"
+        out.append(line(d))
     # samples that last 2^32 (2^64) precision units and a little more in the very first tuning round: the multiple of the precision
     # is a wide number; its low bits alone say "still within 100x"
     for k, cost in enumerate([2 ** 32 + 2, 3 * 2 ** 32 + 7, 2 ** 32 - 1000, 2 ** 33 + 50, 2 ** 32] + ([2 ** 48 + 1, 5 * 10 ** 9, 2 ** 40] if tier == "thorough" else [])):
